@@ -619,7 +619,7 @@ def fuzz_tier(check, seconds, res_viol, forks=16):
 def run(tier):
     check = common.Check("C10", tier)
     nseeds = 48 if tier == "thorough" else 12
-    nmut = 60 if tier == "thorough" else 25
+    nmut = 60 if tier == "thorough" else 16
     nsoup = 400 if tier == "thorough" else 120
     tasks = [("%d.%d" % (check.seed, j), nmut, nsoup) for j in range(nseeds)]
     results = common.pmap(fuzz_worker, tasks)
